@@ -88,6 +88,11 @@ type Case struct {
 	Geth   bool  `json:"geth,omitempty"`
 	Decoys []Log `json:"decoys,omitempty"` // geth family: logs of other contracts / events in the node's history
 
+	// DBFault: the DBFaultAt-th read ("r") / write ("w") of the stored L1 head made by the client
+	// fails (key-value store wrapper around db/memory).
+	DBFault   string `json:"db_fault,omitempty"`
+	DBFaultAt int    `json:"db_fault_at,omitempty"`
+
 	Ops []Op `json:"ops"`
 	// Canonical: L2 block numbers grow with (L1 block, delivery order) among never-removed
 	// events, as on a real core contract; enables the l2-monotone oracle.
